@@ -3,6 +3,7 @@ package main
 import (
 	"context"
 	"fmt"
+	"os"
 	"strings"
 	"time"
 
@@ -142,6 +143,11 @@ func (e *p2pEnv) c13Case(op string, answers []string, order []int) {
 func runC13(tier string, r *rng) {
 	e := newP2PEnv(4)
 	defer e.closer()
+	if line := os.Getenv("VERIF_REPLAY_CASE"); line != "" {
+		kv := kvOf(line)
+		e.c13Case(kv["op"], strings.Split(kv["answers"], ","), atoiList(kv["order"]))
+		return
+	}
 	// every single answer, both operations
 	for _, op := range []string{"get", "byheight"} {
 		for _, a := range c13Alphabet {
